@@ -434,6 +434,10 @@ var intLitRe = regexp.MustCompile(`^-?\d+$`)
 // litPrelude: declarations and ground axioms for all string literals used so far.
 func (q *Query) litPrelude() string {
 	var b strings.Builder
+	// strings.ToLower / EqualFold on literals: the lower-case form of every literal is a literal too
+	for i := 0; i < len(q.litOrder); i++ {
+		q.lit(strings.ToLower(q.litOrder[i]))
+	}
 	names := make([]string, 0, len(q.litOrder))
 	for _, s := range q.litOrder {
 		n := q.lits[s]
@@ -446,6 +450,7 @@ func (q *Query) litPrelude() string {
 	for _, s := range q.litOrder {
 		n := q.lits[s]
 		fmt.Fprintf(&b, "(assert (= (strlen %s) %d))\n", n, len(s))
+		fmt.Fprintf(&b, "(assert (= (toLower %s) %s))\n", n, q.lits[strings.ToLower(s)])
 		if m := pctLitRe.FindStringSubmatch(s); m != nil {
 			v, _ := strconv.ParseInt(m[1], 10, 64)
 			// canonical form only (Sprintf("%d%%") never yields "+5%" or "05%")
